@@ -141,7 +141,7 @@ def probe_term(kind, D, N, seed):
     b = 0.8
     dop = sp.build_derivative_operator(D, L, N)
     frac = 1 / 2 if kind == "cubic" else 2 / 3
-    C = D if kind in ("conv_c", "conv_nc") else 1
+    C = D if kind in ("conv_c", "conv_nc", "proj3d") else 1
     if kind == "conv_c":
         fn = nf.ConvectionNonlinearFun(D, N, derivative_operator=dop, scale=b, conservative=True)
     elif kind == "conv_nc":
@@ -152,6 +152,10 @@ def probe_term(kind, D, N, seed):
         fn = nf.GradientNormNonlinearFun(D, N, derivative_operator=dop, dealiasing_fraction=2 / 3, zero_mode_fix=True, scale=b)
     elif kind == "poly":
         fn = nf.PolynomialNonlinearFun(D, N, dealiasing_fraction=2 / 3, coefficients=[0.3, -0.7, 1.1])
+    elif kind == "vort2d":
+        fn = nf.VorticityConvection2d(D, N, convection_scale=b, derivative_operator=dop, dealiasing_fraction=2 / 3)
+    elif kind == "proj3d":
+        fn = nf.ProjectedConvection3d(D, N, derivative_operator=dop, dealiasing_fraction=2 / 3)
     else:
         fn = nf.PolynomialNonlinearFun(D, N, dealiasing_fraction=1 / 2, coefficients=[0.0, 0.0, 0.0, -0.9])
     u = rng.normal(size=(C,) + (N,) * D)
@@ -177,6 +181,28 @@ def probe_term(kind, D, N, seed):
         res = (-b * 0.5 * (q - q.mean()))[None]
     elif kind == "poly":
         res = (0.3 - 0.7 * uf[0] + 1.1 * uf[0] ** 2)[None]
+    elif kind in ("vort2d", "proj3d"):
+        lapf = (dopf ** 2).sum(axis=0)
+        inv = np.where(lapf == 0, 0.0, 1.0 / np.where(lapf == 0, 1.0, lapf))
+
+        def spec(f):
+            return np.asarray(sp.fft(jnp.asarray(f[None])))[0]
+
+        def phys(fh):
+            return np.asarray(sp.ifft(jnp.asarray(fh)[None], num_spatial_dims=D, num_points=Nf))[0]
+        if kind == "vort2d":
+            # documented: N(ω) = −b ([1, −1]ᵀ ⊙ ∇(Δ⁻¹ω)) · ∇ω
+            psi = phys(inv * spec(uf[0]))
+            # ([1, −1]ᵀ ⊙ ∇ψ) is to be read as the rotated gradient u = (∂_y ψ, −∂_x ψ): N = −b u·∇ω
+            res = (-b * (ddx(psi, 1) * ddx(uf[0], 0) - ddx(psi, 0) * ddx(uf[0], 1)))[None]
+        else:
+            # documented: N(u) = P(u × ω), ω = ∇ × u, P the Leray projection
+            om = np.stack([ddx(uf[2], 1) - ddx(uf[1], 2), ddx(uf[0], 2) - ddx(uf[2], 0), ddx(uf[1], 0) - ddx(uf[0], 1)])
+            cr = np.stack([uf[1] * om[2] - uf[2] * om[1], uf[2] * om[0] - uf[0] * om[2], uf[0] * om[1] - uf[1] * om[0]])
+            ch = np.stack([spec(cr[i]) for i in range(3)])
+            div = sum(dopf[d] * ch[d] for d in range(3))
+            ch = ch - np.stack([dopf[i] * inv * div for i in range(3)])
+            res = np.stack([phys(ch[i]) for i in range(3)])
     else:
         res = (-0.9 * uf[0] ** 3)[None]
     rh = np.asarray(sp.fft(jnp.asarray(res)))
@@ -234,12 +260,14 @@ def oracle(ctx, deep):
         if not r["ok"]:
             fails.append({"key": f"C03:forced-variant:D{D}", "what": f"Kolmogorov nonlinear function (D={D}, N={N}, convection scale {r['convection_scale']:.3f}) is not the unforced term plus a state-independent injection: {r['bad']}",
                           "probe": "forced_variant", "args": {"D": D, "N": N, "seed": ctx.seed}, "observed": r})
-    kinds = ["conv_c", "conv_nc", "conv_sc", "gradnorm", "poly", "cubic"]
-    sizes = {1: [9, 12, 13, 15, 16, 18], 2: [6, 7, 9], 3: [6]} if not deep else {1: list(range(5, 30)), 2: list(range(5, 14)), 3: [5, 6, 7, 8]}
+    kinds = ["conv_c", "conv_nc", "conv_sc", "gradnorm", "poly", "cubic", "vort2d", "proj3d"]
+    sizes = {1: [9, 12, 13, 15, 16, 18], 2: [6, 7, 9], 3: [6, 7]} if not deep else {1: list(range(5, 30)), 2: list(range(5, 14)), 3: [5, 6, 7, 8]}
     for D in (1, 2, 3):
         for N in sizes[D]:
             for kind in kinds:
                 if D == 3 and kind in ("conv_c", "conv_nc") and not deep:
+                    continue
+                if (kind == "vort2d" and D != 2) or (kind == "proj3d" and D != 3):
                     continue
                 r = probe_term(kind, D, N, ctx.seed)
                 ctx.count(("oracle_term", kind, D, N))
